@@ -609,26 +609,107 @@ def emit_converters(cv, dcfg) -> str:
     return "\n".join(L) + "\n"
 
 
+# ------------------------------------------------------------ gen/__init__.py
+
+def translate_gen(repo: Path):
+    """Flags of make_dict_structure_fn_from_attrs the class-template model is parametric in."""
+    file = "src/cattrs/gen/__init__.py"
+    mod = ast.parse((repo / file).read_text())
+    fn = None
+    for n in mod.body:
+        if isinstance(n, ast.FunctionDef) and n.name == "make_dict_structure_fn_from_attrs":
+            fn = n
+    if fn is None:
+        raise T1Unrecognised(file, 0, "make_dict_structure_fn_from_attrs not found")
+    top = None
+    for stm in fn.body:
+        if isinstance(stm, ast.If) and _src(stm.test) == "_cattrs_detailed_validation":
+            top = stm
+    if top is None:
+        raise T1Unrecognised(file, fn.lineno, "no `if _cattrs_detailed_validation:` split")
+    out = {}
+    # detailed branch: is `errors` looked at again after the post-instantiation lines?
+    tail = [s for s in top.body if isinstance(s, ast.If) and _src(s.test) == "not pi_lines"]
+    if len(tail) != 1:
+        raise T1Unrecognised(file, top.lineno, "detailed branch: expected one `if not pi_lines:`")
+    els = [_src(x) for x in tail[0].orelse]
+    if not els or els[-1] != "pi_lines.append('  return instance')":
+        raise T1Unrecognised(file, tail[0].lineno, "detailed branch: post-instantiation lines must end with `return instance`")
+    rechecks = [e for e in els if e.startswith("pi_lines.append(") and "if errors: raise __c_cve(" in e]
+    out["detailed_rechecks_errors"] = bool(rechecks)
+    for e in els[1:-1]:
+        if e not in rechecks:
+            raise T1Unrecognised(file, tail[0].lineno, f"detailed branch: unrecognised statement `{e[:60]}`")
+    # fast branch: keyword-only call arguments
+    fast_src = "\n".join(_src(x) for x in top.orelse)
+    if ("kw_invocation_lines.append(f'{a.alias}={invocation_line}')" in fast_src
+            and "invocation_lines.extend(kw_invocation_lines)" in fast_src
+            and fast_src.index("invocation_lines.extend(kw_invocation_lines)") < fast_src.index("invocation_lines.append('**res,')")):
+        out["fast_kw_last"] = True
+    elif "invocation_line = f'{a.alias}={invocation_line}'" in fast_src:
+        out["fast_kw_last"] = False
+    else:
+        raise T1Unrecognised(file, top.lineno, "fast branch: how keyword-only arguments are emitted")
+    # bucket order of the generated function
+    tl = [s for s in fn.body if isinstance(s, ast.Assign) and _src(s.targets[0]) == "total_lines"]
+    if len(tl) != 1 or [_src(e) for e in tl[0].value.elts[1:]] != ["*lines", "*post_lines", "*instantiation_lines", "*pi_lines"]:
+        raise T1Unrecognised(file, fn.lineno, "order of the line buckets in total_lines")
+    # dataclass fields keep their kw_only flag (adapted_fields)
+    cfile = "src/cattrs/_compat.py"
+    cmod = ast.parse((repo / cfile).read_text())
+    af = [n for n in cmod.body if isinstance(n, ast.FunctionDef) and n.name == "adapted_fields"]
+    if len(af) != 1:
+        raise T1Unrecognised(cfile, 0, "adapted_fields not found")
+    out["dataclass_kw_only_kept"] = "kw_only=attr.kw_only" in _src(af[0])
+    return out
+
+
+def emit_gen(g) -> str:
+    return ("(* GENERATED by harness/t1_translate.py from src/cattrs/gen/__init__.py -- do not edit *)\n"
+            f"Definition src_recheck : bool := {_coq_bool(g['detailed_rechecks_errors'])}.\n"
+            f"Definition src_kw_last : bool := {_coq_bool(g['fast_kw_last'])}.\n")
+
+
 def main():
     repo, outdir = Path(sys.argv[1]), Path(sys.argv[2])
     outdir.mkdir(parents=True, exist_ok=True)
-    summary = {"ok": True, "errors": []}
+    summary = {"ok": True, "errors": [], "sections": {}}
+
+    def write(name, text):
+        p = outdir / name
+        if not p.exists() or p.read_text() != text:
+            p.write_text(text)
+
+    dcfg = None
     try:
         dcfg = translate_dispatch(repo)
-        text = emit_dispatch(dcfg)
-        p = outdir / "DispatchSrc.v"
-        if not p.exists() or p.read_text() != text:
-            p.write_text(text)
+        write("DispatchSrc.v", emit_dispatch(dcfg))
         summary["dispatch"] = dcfg
-        cv = translate_converters(repo)
-        text = emit_converters(cv, dcfg)
-        p = outdir / "ConvSrc.v"
-        if not p.exists() or p.read_text() != text:
-            p.write_text(text)
-        summary["converters"] = cv
+        summary["sections"]["dispatch"] = True
     except T1Unrecognised as e:
         summary["ok"] = False
         summary["errors"].append(str(e))
+        summary["sections"]["dispatch"] = False
+    try:
+        if dcfg is None:
+            raise T1Unrecognised("src/cattrs/dispatch.py", 0, "converters.py tables need the dispatch configuration")
+        cv = translate_converters(repo)
+        write("ConvSrc.v", emit_converters(cv, dcfg))
+        summary["converters"] = cv
+        summary["sections"]["converters"] = True
+    except T1Unrecognised as e:
+        summary["ok"] = False
+        summary["errors"].append(str(e))
+        summary["sections"]["converters"] = False
+    try:
+        g = translate_gen(repo)
+        write("GenSrc.v", emit_gen(g))
+        summary["gen"] = g
+        summary["sections"]["gen"] = True
+    except T1Unrecognised as e:
+        summary["ok"] = False
+        summary["errors"].append(str(e))
+        summary["sections"]["gen"] = False
     print(json.dumps(summary))
     return 0 if summary["ok"] else 3
 
